@@ -17,7 +17,7 @@ Open Scope Z_scope.
 
 Definition reader_wf (r : reader) : Prop :=
   Z.of_nat (length (r_rest r)) = r_total r - r_pos r /\ bytes_ok (r_rest r) /\ bytes_ok (r_all r) /\
-  r_total r = Z.of_nat (length (r_all r)).
+  r_total r = Z.of_nat (length (r_all r)) /\ 0 <= r_pos r.
 
 Lemma new_reader_wf data f k : bytes_ok data -> reader_wf (new_reader data f k).
 Proof. intros H. unfold reader_wf, new_reader. cbn. repeat split; auto; lia. Qed.
@@ -32,19 +32,19 @@ Proof. intros H. unfold bytes_ok in *. apply Forall_forall. intros x Hx. apply I
 
 Lemma r_advance_wf r n : reader_wf r -> 0 <= n <= r_total r - r_pos r -> reader_wf (r_advance r n).
 Proof.
-  intros (H1 & H2 & H3 & H4) Hn. unfold reader_wf, r_advance. cbn [r_rest r_total r_pos r_all].
+  intros (H1 & H2 & H3 & H4 & H5) Hn. unfold reader_wf, r_advance. cbn [r_rest r_total r_pos r_all].
   rewrite skipn_length. repeat split; auto; try lia. apply bytes_ok_skipn; exact H2.
 Qed.
 
 Lemma r_seek0_wf r : reader_wf r -> reader_wf (r_seek0 r).
-Proof. intros (H1 & H2 & H3 & H4). unfold reader_wf, r_seek0. cbn [r_rest r_total r_pos r_all]. repeat split; auto; lia. Qed.
+Proof. intros (H1 & H2 & H3 & H4 & H5). unfold reader_wf, r_seek0. cbn [r_rest r_total r_pos r_all]. repeat split; auto; lia. Qed.
 
 (* io.ReadFull: the reader stays well formed, the bytes are bytes_ok, and without an error there are exactly n *)
 Lemma read_full_wf r n : reader_wf r -> 0 <= n ->
   reader_wf (snd (read_full r n)) /\ bytes_ok (fst (fst (read_full r n))) /\
   (snd (fst (read_full r n)) = None -> Z.of_nat (length (fst (fst (read_full r n)))) = n).
 Proof.
-  intros Hwf Hn. pose proof Hwf as (H1 & H2 & H3 & H4). pose proof (r_stop_le r) as Hs.
+  intros Hwf Hn. pose proof Hwf as (H1 & H2 & H3 & H4 & H5). pose proof (r_stop_le r) as Hs.
   unfold read_full. destruct (r_stop r) as [stop inj]. cbn [fst] in Hs.
   destruct (n <=? Z.max 0 (stop - r_pos r)) eqn:E; cbn [fst snd].
   - split; [apply r_advance_wf; [exact Hwf|lia]|]. split; [apply bytes_ok_firstn; exact H2|].
